@@ -1063,8 +1063,13 @@ def run_private(case) -> CaseResult:
 
             wrong = wrongs[case['wrong']]
 
-            if wrong == pp:
-                wrong = None
+            # HMAC pads its key with NULs: for PBKDF2 'pw\0' IS 'pw'
+            def pwb(v):
+                return v.encode('utf-8') if isinstance(v, str) else v
+
+            if wrong is not None and \
+                    pwb(wrong).rstrip(b'\0') == pwb(pp).rstrip(b'\0'):
+                wrong = wrongs['append']
 
             try:
                 imp(wrong)
@@ -2092,6 +2097,12 @@ def run_cert(case) -> CaseResult:
             asyncssh.import_certificate(line)
         except KeyImportError:
             labels.add('tamper-refused')
+        except OverflowError as exc:
+            # the flipped bit made an RSA mpint negative
+            raise Violation('tamper-exception', 'import_certificate of a '
+                            'damaged certificate raised OverflowError (%s) '
+                            'instead of KeyImportError' % exc,
+                            'import:negative-mpint:OverflowError') from None
         else:
             # every byte is covered by the signature or is the signature
             raise Violation('cert-tamper', 'certificate with bit %d of byte '
@@ -2703,7 +2714,9 @@ def run_cert_signed(case, tmp, ca: Mat, subject: Mat, labels, sig) -> None:
 
 
 def keygen_strategy(tier: str):
-    printable = st.text(st.characters(min_codepoint=0x21, max_codepoint=0x7e),
+    # ssh-keygen takes '#' for the start of a remark
+    printable = st.text(st.characters(min_codepoint=0x21, max_codepoint=0x7e,
+                                      blacklist_characters='#'),
                         min_size=1, max_size=12)
     words = st.lists(printable, min_size=1, max_size=3).map(' '.join)
     kg_pp = st.one_of(st.sampled_from(['passw', 'pässwörd', 'with space']),
